@@ -18,9 +18,9 @@ pub const DEF: PropDef = PropDef {
     run,
     replay,
     level: "fault_enumeration",
-    rule: "fault enumeration: (handshake string, suite, message index or transport phase, side, failure cause, repetitions 1..3 / scattered faults); causes on write: output buffer at every field boundary -1/0/+1 below the predicted length, payload too large, PSK for this message not yet supplied (then set_psk), out-of-turn; on read: a flipped bit in every field, truncation at every field boundary, extension, foreign message of a parallel session, payload buffer too small/empty, missing PSK, out-of-turn, message > 65535; transport: undersized buffers, oversize payload/message, garbage, truncated, flipped, wrong direction on one-way. Oracle: state snapshot (turn, finished, handshake hash, remote static, payload-encrypted flag, nonces) unchanged by the failed call, the retried step succeeds, every later handshake message, the final hash and the first transport messages in both directions are byte-identical to the fault-free run and accepted by the peer. Non-trivial = the injected call really returned Err; distinct by (name, suite, index, cause, repetitions)",
+    rule: "fault enumeration: (handshake string, suite, message index or transport phase, side, failure cause, repetitions 1..3 / scattered faults); causes on write: output buffer at every field boundary -1/0/+1 below the predicted length, payload too large, PSK for this message not yet supplied (then set_psk), out-of-turn; on read: a flipped bit in every field, truncation at every field boundary, extension, foreign message of a parallel session, payload buffer too small/empty, missing PSK, out-of-turn, message > 65535, a correctly encrypted but invalid static key from a peer holding the right keys (P-256: fails at the DH token after the s field was accepted); transport: undersized buffers, oversize payload/message, garbage, truncated, flipped, wrong direction on one-way. Oracle: state snapshot (turn, finished, handshake hash, remote static, payload-encrypted flag, nonces) unchanged by the failed call, the retried step succeeds, every later handshake message, the final hash and the first transport messages in both directions are byte-identical to the fault-free run and accepted by the peer. Non-trivial = the injected call really returned Err; distinct by (name, suite, index, cause, repetitions)",
     technique: "differential fault injection (faulty run vs fault-free run under a scripted RNG), enumerated from reference-model field maps + proptest for scattered multi-fault schedules",
-    assumptions: &["ephemeral keys are a function of the message index (scripted RNG / fixed ephemerals), so the fault-free run is the specification of the faulty one"],
+    assumptions: &["ephemeral keys are a function of the message index (scripted RNG / fixed ephemerals), so the fault-free run is the specification of the faulty one; while an injected failing call runs, the scripted RNG yields different bytes, so randomness drawn AND KEPT by a failing call is visible in the transcript"],
     panic_is_violation: false,
     needs_refnoise: false,
 };
@@ -47,6 +47,11 @@ pub enum Cause {
     /// after the last handshake message, before conversion: a further read (must fail, no trace)
     AfterFinishRead,
     RBig,
+    /// a message from a peer that holds all the right keys but whose (correctly encrypted)
+    /// static public key is not a valid DH point: the read fails at a DH token AFTER the `s`
+    /// field was decrypted and accepted (P-256 only: X25519 accepts every 32-byte string)
+    #[serde(alias = "RBadKey")]
+    RBadStatic(u8),
     // transport phase (idx == number of handshake messages); bool = initiator is the actor
     TWBuf(bool, usize),
     TWBig(bool),
@@ -130,6 +135,10 @@ thread_local! {
 }
 
 fn build_side(spec: &SessionSpec, initiator: bool, omit: &[u8]) -> Result<HandshakeState, Fail> {
+    build_side_rng(spec, initiator, omit).map(|x| x.0)
+}
+
+fn build_side_rng(spec: &SessionSpec, initiator: bool, omit: &[u8]) -> Result<(HandshakeState, SharedRng), Fail> {
     let rng = SharedRng::seeded(spec.key_seed ^ 0x33, spec.suite.dh == DhKind::P256);
     rng.script(&spec.e_priv(initiator));
     let mut ov = EpOverrides { omit_psks: omit.to_vec(), ..Default::default() };
@@ -137,13 +146,50 @@ fn build_side(spec: &SessionSpec, initiator: bool, omit: &[u8]) -> Result<Handsh
         ov.supply_rs = Some(true);
         ov.rs_value = Some(crate::refcrypto::dh_pub(spec.suite.dh, &priv_from_seed(spec.suite.dh, spec.key_seed, 4321)).unwrap());
     }
-    build_snow(spec, initiator, &ov, &Instr { rng: Some(rng), log: None }).map_err(|x| Fail::setup(format!("build {}: {}", spec.name_string(), e(&x))))
+    let h = build_snow(spec, initiator, &ov, &Instr { rng: Some(rng.clone()), log: None }).map_err(|x| Fail::setup(format!("build {}: {}", spec.name_string(), e(&x))))?;
+    Ok((h, rng))
 }
 
 /// psk indices whose token sits in message `idx`
 fn psks_in_msg(spec: &SessionSpec, idx: usize) -> Vec<u8> {
     let m = spec.pattern().with_psks(&spec.hs.psks).unwrap();
     m[idx].iter().filter_map(|t| if let Tok::Psk(n) = t { Some(*n) } else { None }).collect()
+}
+
+
+/// The message `idx` of the honest session as the reference model writes it, except that the
+/// writer's static public key is replaced by an invalid P-256 point (kind 0: y coordinate with
+/// one bit flipped, kind 1: all-zero coordinates). None if message `idx` carries no static key.
+fn bad_static_message(spec: &SessionSpec, idx: usize, plen: usize, kind: u8) -> Result<Option<Vec<u8>>, Fail> {
+    if spec.suite.dh != DhKind::P256 {
+        return Ok(None);
+    }
+    let toks = spec.pattern().with_psks(&spec.hs.psks).ok_or_else(|| Fail::setup("psk set"))?;
+    if !toks[idx].contains(&Tok::S) {
+        return Ok(None);
+    }
+    let mut mi = build_ref(spec, true, &EpOverrides::default()).map_err(|x| Fail::setup(format!("model build: {x:?}")))?;
+    let mut mr = build_ref(spec, false, &EpOverrides::default()).map_err(|x| Fail::setup(format!("model build: {x:?}")))?;
+    for k in 0..idx {
+        let i_sends = k % 2 == 0;
+        let (w, r) = if i_sends { (&mut mi, &mut mr) } else { (&mut mr, &mut mi) };
+        let o = w.write(Some(spec.e_priv(i_sends)), &spec.payload(k, plen)).map_err(|x| Fail::setup(format!("model write: {x:?}")))?;
+        r.read(&o.msg).map_err(|x| Fail::setup(format!("model read: {x:?}")))?;
+    }
+    let i_sends = idx % 2 == 0;
+    let w = if i_sends { &mut mi } else { &mut mr };
+    let Some(kp) = w.s.as_mut() else { return Ok(None) };
+    if kind % 2 == 0 {
+        kp.pubkey[64] ^= 1;
+    } else {
+        for b in kp.pubkey[1..].iter_mut() {
+            *b = 0;
+        }
+    }
+    match w.write(Some(spec.e_priv(i_sends)), &spec.payload(idx, plen)) {
+        Ok(o) => Ok(Some(o.msg)),
+        Err(x) => Err(Fail::setup(format!("model write with an invalid static key: {x:?}"))),
+    }
 }
 
 /// Run the session; `faults` are injected before the valid call of their message index.
@@ -171,8 +217,21 @@ fn run_session(spec: &SessionSpec, faults: &[Fault], plen: usize) -> Result<Outc
             _ => {},
         }
     }
-    let mut hi = build_side(spec, true, &omit_i)?;
-    let mut hr = build_side(spec, false, &omit_r)?;
+    let (mut hi, rng_i) = build_side_rng(spec, true, &omit_i)?;
+    let (mut hr, rng_r) = build_side_rng(spec, false, &omit_r)?;
+    // While an injected (failing) call runs, the random source of both sides yields OTHER bytes
+    // than during the valid calls: a failing call that draws an ephemeral and keeps it shows up
+    // as a different transcript (correct code draws again in the valid write, or draws nothing)
+    let poison = priv_from_seed(spec.suite.dh, spec.key_seed, 7777);
+    let inject = |on: bool| {
+        if on {
+            rng_i.script(&poison);
+            rng_r.script(&poison);
+        } else {
+            rng_i.script(&spec.e_priv(true));
+            rng_r.script(&spec.e_priv(false));
+        }
+    };
     let lay = spec.layouts();
     let mut out = Outcome { t: Transcript::default(), failed_calls: 0, not_a_failure: false };
     // a parallel session with other keys, for foreign messages
@@ -188,6 +247,7 @@ fn run_session(spec: &SessionSpec, faults: &[Fault], plen: usize) -> Result<Outc
         let i_sends = idx % 2 == 0;
         let predicted = lay[idx].overhead + plen;
         // --- write-side faults
+        inject(true);
         for f in faults.iter().filter(|f| f.idx == idx) {
             let (w, r) = if i_sends { (&mut hi, &mut hr) } else { (&mut hr, &mut hi) };
             for rep in 0..f.reps.max(1) {
@@ -236,6 +296,7 @@ fn run_session(spec: &SessionSpec, faults: &[Fault], plen: usize) -> Result<Outc
                 w.set_psk(*n as usize, &spec.psk(*n)).map_err(|x| Fail::new(format!("{name}: set_psk: {}", e(&x))))?;
             }
         }
+        inject(false);
         // snapshots around write-side faults are taken in `oracle` via a second pass; here we
         // perform the valid write
         let (w, r) = if i_sends { (&mut hi, &mut hr) } else { (&mut hr, &mut hi) };
@@ -243,6 +304,7 @@ fn run_session(spec: &SessionSpec, faults: &[Fault], plen: usize) -> Result<Outc
             Fail::new(format!("{name}: message {idx}: the valid write after the injected failure(s) {:?} failed: {}", faults, e(&x)))
         })?;
         // --- read-side faults
+        inject(true);
         for f in faults.iter().filter(|f| f.idx == idx) {
             for rep in 0..f.reps.max(1) {
                 let res: Result<usize, snow::Error> = match &f.cause {
@@ -286,6 +348,14 @@ fn run_session(spec: &SessionSpec, faults: &[Fault], plen: usize) -> Result<Outc
                         let mut buf = vec![0u8; 70000];
                         r.read_message(&m, &mut buf)
                     },
+                    Cause::RBadStatic(kind) => {
+                        let Some(m) = bad_static_message(spec, idx, plen, *kind)? else {
+                            out.not_a_failure = true;
+                            return Ok(out);
+                        };
+                        let mut buf = vec![0u8; 65535];
+                        r.read_message(&m, &mut buf)
+                    },
                     _ => continue,
                 };
                 if res.is_ok() {
@@ -298,6 +368,7 @@ fn run_session(spec: &SessionSpec, faults: &[Fault], plen: usize) -> Result<Outc
                 r.set_psk(*n as usize, &spec.psk(*n)).map_err(|x| Fail::new(format!("{name}: set_psk: {}", e(&x))))?;
             }
         }
+        inject(false);
         let got = hs_read(r, &msg, plen + 16).map_err(|x| {
             Fail::new(format!("{name}: message {idx}: the genuine message is rejected after the injected failure(s) {:?}: {}", faults, e(&x)))
         })?;
@@ -584,6 +655,10 @@ fn snapshot_check(spec: &SessionSpec, f: &Fault, plen: usize) -> Result<bool, Fa
                 Cause::RPsk(_) => (r, msg.clone()),
                 Cause::RReflect => (w, msg.clone()),
                 Cause::RBig => (r, vec![9u8; 65536]),
+                Cause::RBadStatic(kind) => match bad_static_message(spec, idx, plen, *kind)? {
+                    Some(m) => (r, m),
+                    None => return Ok(false),
+                },
                 Cause::RForeign => {
                     let mut other = spec.clone();
                     other.key_seed = mix(spec.key_seed, 0xF0F0);
@@ -721,6 +796,10 @@ pub fn faults_for(spec: &SessionSpec, plen: usize) -> Vec<Fault> {
         out.push(Fault { idx, cause: Cause::RReflect, reps: 1 });
         out.push(Fault { idx, cause: Cause::BadSetPsk((idx % 3) as u8), reps: 1 + (idx % 2) as u8 });
         out.push(Fault { idx, cause: Cause::RBig, reps: 1 });
+        if spec.suite.dh == DhKind::P256 && spec.pattern().with_psks(&spec.hs.psks).map_or(false, |t| t[idx].contains(&Tok::S)) {
+            out.push(Fault { idx, cause: Cause::RBadStatic(0), reps: 1 });
+            out.push(Fault { idx, cause: Cause::RBadStatic(1), reps: 2 });
+        }
     }
     for actor_i in [true, false] {
         for b in [0usize, 1, 15, 16, plen + 15] {
@@ -791,7 +870,7 @@ pub fn run(ctx: &Ctx) {
         let pick_kind = |idx: usize, want_read: bool| -> Vec<Fault> {
             let mut out: Vec<Fault> = Vec::new();
             for f in all.iter().filter(|f| f.idx == idx && f.reps == 1) {
-                let is_read = matches!(f.cause, Cause::RFlip(..) | Cause::RTrunc(_) | Cause::RPbuf(_) | Cause::RExtend(_) | Cause::RForeign | Cause::RPsk(_) | Cause::RBig);
+                let is_read = matches!(f.cause, Cause::RFlip(..) | Cause::RTrunc(_) | Cause::RPbuf(_) | Cause::RExtend(_) | Cause::RForeign | Cause::RPsk(_) | Cause::RBig | Cause::RBadStatic(_));
                 let is_write = matches!(f.cause, Cause::WBuf(_) | Cause::WBig | Cause::WPsk(_));
                 let kind = format!("{:?}", f.cause);
                 let tag = kind.split('(').next().unwrap().to_string();
